@@ -338,18 +338,26 @@ def run_case(sys_, case, idx, seed):
             V(f"{pid}:repeat:{scheme}", f"evolving the SAME input object twice gives results that differ by {d12:.2e}")
         p = scheme_order(scheme, c)
         if p is not None and not c["adaptive"] and not td:
-            h1 = evolve_once(sys_, psi, scheme, c, dt / 2, td)
-            h2 = evolve_once(sys_, h1, scheme, c, dt / 2, td)
-            g = st.dense(h2)
-            g = g.reshape(-1) if form == "mps" else g
+            # observed order from the same total time in 1, 2 and 4 equal steps.  A single halving can be anomalous (regularised
+            # schemes after the state has changed, pre-asymptotic step sizes: e.g. 4.4e-3, 2.8e-2, 4.8e-4, 1.3e-4 for 1, 2, 4, 8
+            # steps of second-order CMF in imaginary time), so the BEST pairwise estimate must reach the advertised order
             refT = ref
-            e_half = float(np.linalg.norm(g / np.linalg.norm(g) - refT / np.linalg.norm(refT)))
-            e_full = out["meas"][-1]["err"]
-            out["meas"].append({"scheme": scheme, "p": p, "tau": tau, "ratio": e_half / (e_full + 1e-300), "e_full": e_full, "e_half": e_half, "cmf": c["cmf"], "rk": c["rk"], "imag": imag})
+            errs = {1: out["meas"][-1]["err"]}
+            for nsub in (2, 4):
+                h = psi
+                for _ in range(nsub):
+                    h = evolve_once(sys_, h, scheme, c, dt / nsub, td)
+                g = st.dense(h)
+                g = g.reshape(-1) if form == "mps" else g
+                errs[nsub] = float(np.linalg.norm(g / np.linalg.norm(g) - refT / np.linalg.norm(refT)))
+            e_full, e_half = errs[1], errs[2]
             floor = 2e-6 if scheme == "cmf" else 1e-9
-            if e_full > 50 * floor and e_half > e_full * (2.0 ** (-p)) * 3.0 + floor:
+            est = [np.log(max(errs[i], floor) / max(errs[j], floor)) / np.log(j / i) for i, j in ((1, 2), (2, 4), (1, 4))]
+            out["meas"].append({"scheme": scheme, "p": p, "tau": tau, "ratio": e_half / (e_full + 1e-300), "e_full": e_full, "e_half": e_half, "e_quarter": errs[4],
+                                "order_estimate": float(max(est)), "cmf": c["cmf"], "rk": c["rk"], "imag": imag})
+            if e_full > 50 * floor and min(errs[2], errs[4]) > floor and max(est) < p - 0.7:
                 V(f"{pid}:order:{scheme}" + (f":{c['rk']}" if scheme == "pc_rk" else "") + (f":{c['cmf']}" if scheme == "cmf" else ""),
-                  f"halving the step reduces the error only from {e_full:.2e} to {e_half:.2e}; order {p} promises a factor {2 ** p}")
+                  f"errors {errs[1]:.2e}, {errs[2]:.2e}, {errs[4]:.2e} for 1, 2, 4 steps over the same time: best observed order {max(est):.2f}, advertised {p}")
         if scheme in ("ps", "ps2", "cmf") and not c["adaptive"]:
             other = dict(c, solver=("RK45" if c["solver"] == "krylov" else "krylov"))
             ro = evolve_once(sys_, psi, scheme, other, dt, td)
